@@ -224,7 +224,7 @@ func (c08) Describe() CheckInfo {
 		},
 		RealCode:       []string{"gopatch main(), loader, internal/parse (section splitter, meta parser), internal/pgo (augmenter), internal/engine, patch.Parse/File.Apply"},
 		Stubs:          []string{"package os (patch delivered through simulated files and a chunked simulated stdin)", "path/filepath walk", "io/ioutil"},
-		RequiredProbes: []string{"trunc-patch", "trunc-target", "flip-patch", "flip-target", "cross", "read-error-fired", "ill-typed", "op-fault", "ill-cross", "scale", "two-change", "bulk", "bulk-memory-measured", "patch-list-layouts", "cli-forms", "stdin-is-a-terminal", "tree", "tree-symlink-cycle", "patch-rejected", "patch-accepted", "stdin-short-reads", "api-parse", "api-apply"},
+		RequiredProbes: []string{"trunc-patch", "trunc-target", "flip-patch", "flip-target", "cross", "read-error-fired", "ill-typed", "op-fault", "ill-cross", "scale", "two-change", "bulk", "bulk-memory-measured", "patch-list-layouts", "cli-forms", "stdin-is-a-terminal", "op-fault-second-actor", "tree", "tree-symlink-cycle", "patch-rejected", "patch-accepted", "stdin-short-reads", "api-parse", "api-apply"},
 	}
 }
 
@@ -471,6 +471,12 @@ func (c08) Gen(env *Env, seed uint64, tier string, i int) *Case {
 		} else if r.Chance(1, 6) {
 			c.Flags.Diff = true
 		}
+		if r.Chance(1, 2) {
+			c.AddFile("sub/dir/inner.go", []byte("package inner\n\nfunc inner() int { return 7 }\n"), "other", nil, "")
+			if len(inputs) > 0 {
+				c.AddFile("sub/match.go", inputs[0].Data, "input", nil, "")
+			}
+		}
 		if r.Chance(1, 3) {
 			// a longer queue of files behind the one that is struck
 			for j := 0; j < r.Range(6, 14); j++ {
@@ -552,6 +558,15 @@ func c08OpFaults(env *Env, c *Case, add func(string, string, string)) []Violatio
 		if o.Name == "write" {
 			f.Sticky = true
 			judge([]world.Fault{f})
+		}
+		if o.Name == "open" && strings.HasSuffix(o.Path, ".go") && strings.HasPrefix(o.Path, ProjDir+"/") {
+			// a second actor: the file is removed, or the directory it lives in is
+			// replaced by a plain file, after the walk and before the read
+			env.Probe("op-fault-second-actor")
+			judge([]world.Fault{{AtOp: k, Kind: "extern", Path: o.Path, Errno: "REMOVE"}})
+			if path.Dir(o.Path) != ProjDir {
+				judge([]world.Fault{{AtOp: k, Kind: "extern", Path: o.Path, Errno: "PARENT-TO-FILE"}})
+			}
 		}
 	}
 	return vs
